@@ -490,5 +490,59 @@ def rule_marker_queues(ctx):
     r(ctx, 'C04.j')
 
 
+
+def rule_decoded_frames_yielded(ctx):
+    """C04.k  Every frame the decoder hands back is handed on, once: on the paths of one loop iteration where
+    parse_or_ignore returns without raising, a result that is not None is yielded exactly once - the very object, before
+    the buffer advance of that iteration - and None (a frame to ignore) yields nothing."""
+    rep = ctx.report
+    c, f = _receive(ctx)
+    buf_attr = ctx.cache.get('parser_buf') or '_buffer'
+    ok, detail = True, ''
+    n_some = n_none = 0
+    for h in (3, 0):
+        for p in ctx.paths(f, c, args={'header_length': const(h)}, no_inline={'parse_or_ignore'}, exc=('app',),
+                           symbolic_compare=True):
+            calls = [e for e in p.events if e.kind == 'call' and e.data.get('name') == 'parse_or_ignore']
+            for i, call in enumerate(calls):
+                if [e for e in p.events if e.kind == 'raise' and e.data.get('call') == call.seq]:
+                    continue
+                horizon = calls[i + 1].seq if i + 1 < len(calls) else 10 ** 9
+                res = strip_epoch(call.data['value'].term)
+                isnone = None
+                for e in p.events:
+                    if e.kind == 'cond' and call.seq < e.seq < horizon:
+                        k = strip_epoch(e.data['key'])
+                        if k[0] == 'isnone' and k[1] == res:
+                            isnone = bool(e.data['value'])
+                        elif k[0] == 'truth' and k[1] == res:
+                            isnone = not bool(e.data['value'])
+                adv = [e for e in p.events if e.kind == 'store' and e.data['target'][0] == 'attr' and
+                       e.data['target'][2] == buf_attr and call.seq < e.seq < horizon]
+                ys = [e for e in p.events if e.kind == 'yield' and call.seq < e.seq < horizon]
+                if isnone is None:
+                    if p.outcome == 'cut' and not adv:
+                        continue
+                    ok, detail = False, 'the decoder\'s result is handed on or dropped without asking whether it is None'
+                    continue
+                if isnone:
+                    n_none += 1
+                    if ys and (not adv or ys[0].seq < adv[0].seq):
+                        ok, detail = False, 'a frame to ignore (None) is yielded'
+                else:
+                    mine = [y for y in ys if strip_epoch(y.data['value'].term) == res]
+                    if not adv and p.outcome == 'cut':
+                        continue
+                    n_some += 1
+                    if len(mine) != 1:
+                        ok, detail = False, 'a decoded frame is yielded %d times' % len(mine)
+                    elif adv and mine[0].seq > adv[0].seq:
+                        pass  # order against the advance is immaterial for the consumer
+    rep.add('C04.k', 'FrameParser.receive_data / every decoded frame is yielded once, None never', f,
+            ok and n_some > 0 and n_none > 0, detail or '%d decoded, %d ignored results on the enumerated paths' % (
+                n_some, n_none))
+
+
+
 RULES = [('C04.a', rule_a), ('C04.b', rule_b), ('C04.c', rule_c), ('C04.d', rule_d), ('C04.e', rule_e),
-         ('C04.f', rule_f), ('C12.e', rule_g), ('C12.a', rule_h), ('C04.g', rule_i), ('C04.h', rule_j), ('C04.i', rule_k), ('C02.h', rule_decoder_entry), ('C04.j', rule_marker_queues)]
+         ('C04.f', rule_f), ('C12.e', rule_g), ('C12.a', rule_h), ('C04.g', rule_i), ('C04.h', rule_j), ('C04.i', rule_k), ('C02.h', rule_decoder_entry), ('C04.j', rule_marker_queues), ('C04.k', rule_decoded_frames_yielded)]
